@@ -106,7 +106,10 @@ func (s *session) dial(cm *message.ConnectMessage, connack []byte) error {
 
 // redial: the application disconnects and connects the same Client object again
 // (same client identifier); the server answers SessionPresent=0.
-func (s *session) redial(clean bool) error {
+func (s *session) redial(clean bool) error { return s.redialSP(clean, false) }
+
+// redialSP is redial with the SessionPresent flag the server answers with.
+func (s *session) redialSP(clean, sessionPresent bool) error {
 	s.cl.Disconnect()
 	s.srv.Close()
 	cm := message.NewConnectMessage()
@@ -114,7 +117,11 @@ func (s *session) redial(clean bool) error {
 	cm.SetCleanSession(clean)
 	cm.SetClientID([]byte(s.id))
 	cm.SetKeepAlive(120)
-	return s.dial(cm, nil)
+	connack := []byte{0x20, 2, 0, 0}
+	if sessionPresent {
+		connack[2] = 1
+	}
+	return s.dial(cm, connack)
 }
 
 // ---- C12 --------------------------------------------------------------------------
@@ -148,6 +155,13 @@ type Req struct {
 type C12Case struct {
 	Reqs     []Req `json:"reqs"`
 	AckOrder []int `json:"ack_order"` // order in which the pending (non-forced) requests are acknowledged
+	// Stale: requests (kinds pub1 pub2 sub unsub; "x" suffix: with the application-chosen
+	// identifier 60001) issued on an EARLIER connection of the same Client object and never
+	// acknowledged there; then the application disconnects and connects the same object again
+	// (CleanSession=0; the server answers SessionPresent=StaleSP). The requests of the case
+	// proper are made on the new connection: what was left over must not stand in their way.
+	Stale   []string `json:"stale,omitempty"`
+	StaleSP bool     `json:"stale_sp,omitempty"`
 }
 
 type c12result struct {
@@ -203,6 +217,47 @@ func runC12(c C12Case) (res c12result) {
 		return c12result{Incon: err.Error()}
 	}
 	defer s.close()
+	if len(c.Stale) > 0 {
+		for si, k := range c.Stale {
+			kind, explicit := k, false
+			if len(k) > 0 && k[len(k)-1] == 'x' {
+				kind, explicit = k[:len(k)-1], true
+			}
+			never := func(msg, ack message.Message, err error) error { return nil }
+			switch kind {
+			case "pub1", "pub2":
+				m := message.NewPublishMessage()
+				m.SetTopic([]byte(fmt.Sprintf("c12/stale/%d", si)))
+				m.SetPayload([]byte("left over"))
+				m.SetQoS(byte(kind[3] - '0'))
+				if explicit {
+					m.SetPacketID(60001)
+				}
+				s.cl.Publish(m, never)
+			case "sub":
+				m := message.NewSubscribeMessage()
+				m.AddTopic([]byte(fmt.Sprintf("c12/stale/%d", si)), 1)
+				if explicit {
+					m.SetPacketID(60001)
+				}
+				s.cl.Subscribe(m, never, func(*message.PublishMessage) error { return nil })
+			default:
+				m := message.NewUnsubscribeMessage()
+				m.AddTopic([]byte(fmt.Sprintf("c12/stale/%d", si)))
+				if explicit {
+					m.SetPacketID(60001)
+				}
+				s.cl.Unsubscribe(m, never)
+			}
+		}
+		// the requests have reached the server (it never answers them)
+		s.srv.SendRaw([]byte{0xC0, 0})
+		s.srv.Take(func(p *codec.Packet) bool { return p.Type == codec.PINGRESP }, 5*time.Second)
+		if err := s.redialSP(false, c.StaleSP); err != nil {
+			return c12result{Incon: "reconnect of the same Client object: " + err.Error()}
+		}
+		cls["requests-left-over-from-an-earlier-connection-of-the-same-client-object"] = true
+	}
 	svcID := s.cl.VerifServiceID()
 	n := len(c.Reqs)
 	fired := make([]atomic.Int32, n)
@@ -670,6 +725,18 @@ func genC12(t *rapid.T) C12Case {
 		c.Reqs = append(c.Reqs, r)
 	}
 	c.AckOrder = rapid.SliceOfN(rapid.IntRange(0, 7), 0, 8).Draw(t, "ackorder")
+	if rapid.IntRange(0, 3).Draw(t, "stale") == 0 {
+		c.Stale = rapid.SliceOfN(rapid.SampledFrom([]string{"pub1", "pub2", "sub", "unsub", "pub1x", "pub2x", "subx"}), 1, 3).Draw(t, "stalekinds")
+		nx := 0
+		for i, k := range c.Stale {
+			if k[len(k)-1] == 'x' {
+				if nx++; nx > 1 {
+					c.Stale[i] = k[:len(k)-1] // one request per application-chosen identifier at a time
+				}
+			}
+		}
+		c.StaleSP = rapid.Bool().Draw(t, "stalesp")
+	}
 	return c
 }
 
